@@ -18,7 +18,7 @@ BUDGET = {"quick": 540, "thorough": 3000}
 
 BASE_LINKSETS = [["bb"], ["bb", "ang3", "a_c"], ["gt", "pat"], ["lab", "edge_only"], ["circ", "bb"], ["star"], ["rm", "bb"],
                  ["ver2", "lt_sa"], ["bb", "nonedge"], ["dih4", "bb"], ["ord3:>,,>>", "bb"], ["ord3:<,>,", "gt"], ["ord3:*,,**"],
-                 ["repl_type", "sel_type"], ["dup2", "bb"]]
+                 ["repl_type", "sel_type"], ["dup2", "bb"], ["exl", "bb"], ["open2", "open3"]]
 
 
 def cases(tier):
